@@ -27,21 +27,21 @@ def handleBodiesAlarm (op : String) (args : List String) : Option String :=
   | "body_at_state", [t, ka, kc, sn, _tag] =>
     match AlarmP.decTrigO t, AlarmP.decOptInt ka, AlarmP.decOptInt kc, AlarmP.decOptInt sn with
     | some (some t), some ka, some kc, some sn =>
-      let ack := AlarmTime_acknowledged (awareO ka) (awareO kc)
-      let act := AlarmTime_is_active (awareO ka) (awareO kc) (awareO sn) t toDatetime
-      let trg := AlarmTime_trigger (awareO sn) t toDatetime
+      let ack := AlarmTime_acknowledged (alarm_acknowledged := awareO ka) (last_ack := awareO kc)
+      let act := AlarmTime_is_active (alarm_acknowledged := awareO ka) (last_ack := awareO kc) (snooze_until := awareO sn) (trigger_raw := t) (to_datetime := toDatetime)
+      let trg := AlarmTime_trigger (snooze_until := awareO sn) (trigger_raw := t) (to_datetime := toDatetime)
       some ((match ack with | .ok o => encOptTrigInst o | .error e => pyExcName e) ++ ";" ++
         (match act with | .ok true => "1" | .ok false => "0" | .error e => pyExcName e) ++ ";" ++
         (match trg with | .ok x => AlarmP.encTrig x | .error e => pyExcName e))
     | _, _, _, _ => some "bad-args"
   | "body_al_add", [t, td, _tag] =>
     match AlarmP.decTrigO t, td.toInt? with
-    | some (some t), some td => some (AlarmP.encTrig (Alarms_add t td toDatetime id))
+    | some (some t), some td => some (AlarmP.encTrig (Alarms_add (dt := t) (td := td) (to_datetime := toDatetime) (normalize_pytz := id)))
     | _, _ => some "bad-args"
   | "body_al_repeat", [t, rep, dur, _tag] =>
     match AlarmP.decTrigO t, rep.toInt?, AlarmP.decOptInt dur with
     | some (some t), some rep, some dur =>
-      some (pyRes (fun l => ",".intercalate (l.map AlarmP.encTrig)) (Alarms_repeat t rep dur toDatetime id))
+      some (pyRes (fun l => ",".intercalate (l.map AlarmP.encTrig)) (Alarms_repeat (first := t) (alarm_repeat := rep) (alarm_duration := dur) (to_datetime := toDatetime) (normalize_pytz := id)))
     | _, _, _ => some "bad-args"
   | "body_al_active", args =>
     AlarmP.withState args fun loc s as =>
@@ -49,12 +49,13 @@ def handleBodiesAlarm (op : String) (args : List String) : Option String :=
       | .error e => AlarmP.encErr e
       | .ok ts =>
         let act : AlarmTime → Py Bool := fun x =>
-          AlarmTime_is_active (awareO x.alarm.acknowledged) (awareO x.lastAck) (awareO x.snooze) x.trig toDatetime
+          AlarmTime_is_active (alarm_acknowledged := awareO x.alarm.acknowledged) (last_ack := awareO x.lastAck) (snooze_until := awareO x.snooze)
+            (trigger_raw := x.trig) (to_datetime := toDatetime)
         match Alarms_active ts act with
         | .error e => pyExcName e
         | .ok r => "ok" ++ String.join (r.map (fun x =>
             "|" ++ toString (as.idxOf x.alarm) ++ ":" ++
-              (match AlarmTime_trigger (awareO x.snooze) x.trig toDatetime with
+              (match AlarmTime_trigger (snooze_until := awareO x.snooze) (trigger_raw := x.trig) (to_datetime := toDatetime) with
                | .ok v => AlarmP.encTrig v | .error e => pyExcName e)))
   | _, _ => none
 
